@@ -10,7 +10,9 @@ martian/syntax and martian/core (go/types) compared with the committed reviewed
 classification corpus/C10/map_range_sites.json.
 -/
 import Martian.Determinism
+import Martian.DeterminismAccum
 import Proofs.Determinism
+import Proofs.DeterminismAccum
 import Gen.Facts
 
 namespace Props.C10
@@ -86,6 +88,157 @@ key order, the bytes do not depend on the order in which ANY object at ANY depth
 was handed over. -/
 theorem nested_emit_order_independent (a b : JTree) (h : JTree.Reorder a b) (hw : a.wf = true) :
     a.emit = b.emit := (reorder_aux h hw).2.2.1
+
+/-! ## Loops that accumulate one contribution per entry (extension round)
+
+Model: `Martian/DeterminismAccum.lean`.  Three general theorems about loops that
+walk the Go map ITSELF (no sort), then the loop shape of the eight sites repaired
+in this round (now over sorted keys), then one short theorem per site. -/
+
+/-- GENERAL (map insert per entry): `res[k] = g(k, v)` for every entry of a Go map,
+walked in any order, builds the same map - the same lookup result for every key and
+the same sorted presentation.  (No sort in the loop.) -/
+theorem mapInsert_order_independent {V W : Type} (g : Key → V → W) (l₁ l₂ : List (Key × V))
+    (h : l₁.Perm l₂) (hn : nodupKeys l₁ = true) :
+    (∀ k, lookupL k (buildMap g l₁) = lookupL k (buildMap g l₂)) ∧
+      sortK (buildMap g l₁) = sortK (buildMap g l₂) := by
+  have hn' := (nodupKeys_iff l₁).mp hn
+  have hp := buildMap_perm g h hn'
+  have hk := buildMap_keys_nodup g l₁ hn'
+  exact ⟨fun k => lookupL_perm hp hk k, sortK_eq_of_perm hp hk⟩
+
+/-- GENERAL (commutative fold): a fold whose step commutes (`&&`, `||`, `max`, counting,
+inserting into a set) gives the same result for every iteration order. -/
+theorem commFold_order_independent {α β : Type} (f : β → α → β)
+    (hc : ∀ b x y, f (f b x) y = f (f b y) x) (l₁ l₂ : List α) (h : l₁.Perm l₂) (b : β) :
+    l₁.foldl f b = l₂.foldl f b := foldl_perm_of_comm f hc h b
+
+/-- GENERAL (all / any): "every entry satisfies p" and "some entry satisfies p"
+(`done = done && d`, `change = change || c`, the boolean `equal` loops). -/
+theorem allAny_order_independent {α : Type} (p : α → Bool) (l₁ l₂ : List α) (h : l₁.Perm l₂) :
+    l₁.all p = l₂.all p ∧ l₁.any p = l₂.any p := ⟨all_perm p h, any_perm p h⟩
+
+/-- GENERAL (append per entry, consumer builds a set or sorts): a loop that appends
+`f(entry)` to a slice in map order yields the same elements with the same
+multiplicities whatever the order, hence the same set (`getBoundParamIds`, whose only
+consumers insert every id into a set) and the same sorted list (append-then-sort). -/
+theorem appendPerEntry_order_independent {α : Type} (f : α → List Key) (l₁ l₂ : List α)
+    (h : l₁.Perm l₂) :
+    (l₁.flatMap f).Perm (l₂.flatMap f) ∧ (∀ x, x ∈ l₁.flatMap f ↔ x ∈ l₂.flatMap f) ∧
+      sortKeys (l₁.flatMap f) = sortKeys (l₂.flatMap f) :=
+  ⟨h.flatMap_right f, fun _ => (h.flatMap_right f).mem_iff, sort_keys_order_independent _ _ (h.flatMap_right f)⟩
+
+/-- The accumulating loop over the map ITSELF (the code before this round's fixes):
+the two flags and the result map do not depend on the iteration order, and the error
+list is the same up to order ... -/
+theorem accumulateIn_order_independent_up_to_error_order (l₁ l₂ : List (Key × EntryRes))
+    (h : l₁.Perm l₂) (hn : nodupKeys l₁ = true) :
+    (accumulateIn l₁).done = (accumulateIn l₂).done ∧
+    (accumulateIn l₁).changed = (accumulateIn l₂).changed ∧
+    (∀ k, lookupL k (accumulateIn l₁).vals = lookupL k (accumulateIn l₂).vals) ∧
+    sortK (accumulateIn l₁).vals = sortK (accumulateIn l₂).vals ∧
+    (accumulateIn l₁).errs.Perm (accumulateIn l₂).errs := by
+  simp only [accumulateIn_done, accumulateIn_changed, accumulateIn_vals, accumulateIn_errs]
+  have hm := mapInsert_order_independent (fun _ (e : EntryRes) => e.val) l₁ l₂ h hn
+  exact ⟨all_perm _ h, any_perm _ h, hm.1, hm.2, h.filterMap _⟩
+
+/-- ... but the ORDER of the error list (= the reported text) does depend on it:
+negative witness, two entries that both fail.  The harness replays this on the real
+functions (provocations `invertSplit`, `wrapDisabled`, … : with a fix reverted the
+text differs between repetitions). -/
+theorem accumulateIn_error_order_dependent :
+    ∃ l₁ l₂ : List (Key × EntryRes), l₁.Perm l₂ ∧ nodupKeys l₁ = true ∧
+      errorListText (accumulateIn l₁).errs ≠ errorListText (accumulateIn l₂).errs :=
+  ⟨[([97], ⟨true, false, some [49], []⟩), ([98], ⟨true, false, some [50], []⟩)],
+   [([98], ⟨true, false, some [50], []⟩), ([97], ⟨true, false, some [49], []⟩)],
+   by decide, by decide, by decide⟩
+
+/-- The loop as the code is now (over the sorted keys): flags, result map, error list
+and hence the error text are the same for EVERY order in which the runtime hands the
+map over. -/
+theorem accumulate_order_independent (l₁ l₂ : List (Key × EntryRes)) (h : l₁.Perm l₂)
+    (hn : nodupKeys l₁ = true) : accumulate l₁ = accumulate l₂ :=
+  foldSorted_order_independent Accum.step Accum.init l₁ l₂ h hn
+
+/-- what the sorted loop reports is "one error per failing entry, in key order" -/
+theorem accumulate_errs_eq_collectErrors (l : List (Key × EntryRes)) :
+    (accumulate l).errs = collectErrors (fun _ e => e.err) l := by
+  rw [accumulate_eq, accumulateIn_errs]; rfl
+
+/-- the sort changed nothing but the order of the errors: flags and result map of the
+sorted loop are those of the loop over the map in any order -/
+theorem accumulate_agrees_with_unsorted (l : List (Key × EntryRes)) (hn : nodupKeys l = true) :
+    (accumulate l).done = (accumulateIn l).done ∧ (accumulate l).changed = (accumulateIn l).changed ∧
+    (∀ k, lookupL k (accumulate l).vals = lookupL k (accumulateIn l).vals) := by
+  have hp : (sortK l).Perm l := sortK_perm l
+  have hn' : nodupKeys (sortK l) = true :=
+    (nodupKeys_iff _).mpr ((hp.map Prod.fst).nodup_iff.mpr ((nodupKeys_iff l).mp hn))
+  have := accumulateIn_order_independent_up_to_error_order (sortK l) l hp hn'
+  exact ⟨this.1, this.2.1, this.2.2.1⟩
+
+/-- `invertSplit` (split_expression.go, MapExp branch; fix 3cfd1e8) -/
+theorem invertSplit_order_independent (l₁ l₂ : List (Key × EntryRes)) (h : l₁.Perm l₂)
+    (hn : nodupKeys l₁ = true) :
+    accumulate l₁ = accumulate l₂ ∧
+      errorListText (accumulate l₁).errs = errorListText (accumulate l₂).errs := by
+  rw [accumulate_order_independent l₁ l₂ h hn]; exact ⟨rfl, rfl⟩
+
+/-- `wrapDisabled` (resolve_stage.go, MapExp branch; fix 3614e32) -/
+theorem wrapDisabled_order_independent (l₁ l₂ : List (Key × EntryRes)) (h : l₁.Perm l₂)
+    (hn : nodupKeys l₁ = true) : accumulate l₁ = accumulate l₂ :=
+  accumulate_order_independent l₁ l₂ h hn
+
+/-- `MergeExp.BindingPath`, static merge over a map (merge_exp.go; fix 4931c7d) -/
+theorem mergeBindingPath_order_independent (l₁ l₂ : List (Key × EntryRes)) (h : l₁.Perm l₂)
+    (hn : nodupKeys l₁ = true) : accumulate l₁ = accumulate l₂ :=
+  accumulate_order_independent l₁ l₂ h hn
+
+/-- `CallGraphStage.unsplit` / `CallGraphPipeline.unsplit`, the loop over the inputs
+(resolve_stage.go, resolve_pipeline.go; fixes 7ae87c8, 922daa0) -/
+theorem unsplit_order_independent (l₁ l₂ : List (Key × EntryRes)) (h : l₁.Perm l₂)
+    (hn : nodupKeys l₁ = true) : accumulate l₁ = accumulate l₂ :=
+  accumulate_order_independent l₁ l₂ h hn
+
+/-- `Node.resolveInputs` and `TopNode.resolveMap` (core/resolve.go; fixes 7218313,
+d4fb478): `allReady` is `done`, the MarshalerMap is `vals` -/
+theorem resolveInputs_order_independent (l₁ l₂ : List (Key × EntryRes)) (h : l₁.Perm l₂)
+    (hn : nodupKeys l₁ = true) : accumulate l₁ = accumulate l₂ :=
+  accumulate_order_independent l₁ l₂ h hn
+
+/-- `convertToExp` on a LazyArgumentMap / MarshalerMap (core/runtime.go; fix 218731a):
+the entry named in the returned error, and the partial result, are those of the
+smallest failing key whatever the iteration order. -/
+theorem convertToExp_order_independent {W E : Type} (conv : Key → W → Except E Bytes)
+    (l₁ l₂ : List (Key × W)) (h : l₁.Perm l₂) (hn : nodupKeys l₁ = true) :
+    firstFailure conv l₁ = firstFailure conv l₂ := by
+  unfold firstFailure
+  rw [sort_entries_order_independent l₁ l₂ h hn]
+
+/-! Non-vacuity of the extension round. -/
+private def er (k : Nat) (bad : Bool) : Key × EntryRes :=
+  ([107, k], { done := !bad, changed := bad, err := if bad then some [101, k] else none, val := [118, k] })
+example : nodupKeys [er 51 true, er 49 false, er 50 true] = true := by decide
+example : [er 51 true, er 49 false, er 50 true].Perm [er 49 false, er 50 true, er 51 true] := by decide
+example : accumulate [er 51 true, er 49 false, er 50 true] = accumulate [er 49 false, er 50 true, er 51 true] :=
+  accumulate_order_independent _ _ (by decide) (by decide)
+/-- the loop over an already sorted map: two errors, in key order, rendered as `ErrorList.Error()` does -/
+example : (accumulateIn [er 49 false, er 50 true, er 51 true]).errs = [[101, 50], [101, 51]] := by decide
+example : errorListText (accumulateIn [er 49 false, er 50 true, er 51 true]).errs = [10, 9, 101, 50, 10, 9, 101, 51] := by decide
+example : (accumulateIn [er 49 false, er 50 true, er 51 true]).done = false
+    ∧ (accumulateIn [er 49 false, er 50 true, er 51 true]).vals = [([107, 49], [118, 49]), ([107, 50], [118, 50]), ([107, 51], [118, 51])] := by decide
+example : (accumulateIn [er 51 true, er 49 false, er 50 true]).errs ≠ (accumulateIn [er 49 false, er 50 true, er 51 true]).errs := by decide
+example : buildMap (fun k (v : Nat) => k.length + v) [([1], 5), ([2, 3], 7)] = [([1], 6), ([2, 3], 9)] := by decide
+example : ([([1], [[5], [6]]), ([2], [[7]])] : List (Key × List Key)).flatMap (·.2) ≠ [([2], [[7]]), ([1], [[5], [6]])].flatMap (·.2) := by decide
+/-- a step that does not commute is excluded by the hypothesis of `commFold_order_independent` -/
+example : ¬ ∀ (b : List Nat) x y, (b ++ [x]) ++ [y] = (b ++ [y]) ++ [x] := fun h => by
+  have := h [] 1 2; simp at this
+example : ∀ (b : Nat) x y, max (max b x) y = max (max b y) x := fun b x y => by omega
+private def cv (k : Key) (w : Nat) : Except Key Bytes := if w % 2 = 0 then .ok [w] else .error k
+example : firstFailureIn cv [([97], 2), ([98], 3), ([99], 1)] = ([([97], [2])], some [98]) := by decide
+example : firstFailure cv [([99], 1), ([97], 2), ([98], 3)] = firstFailure cv [([98], 3), ([99], 1), ([97], 2)] :=
+  convertToExp_order_independent cv _ _ (by decide) (by decide)
+/-- returning at the first failure in the order GIVEN would depend on the order -/
+example : firstFailureIn cv [([99], 1), ([97], 2), ([98], 3)] ≠ firstFailureIn cv [([98], 3), ([99], 1), ([97], 2)] := by decide
 
 /-! Non-vacuity: a three-entry map, two orders, one output. -/
 private def e (k : Nat) (s : Bool) : Key × Rendered := ([k, 49], { keyText := [k, 49], single := s, text := [48 + k % 10] })
